@@ -30,3 +30,5 @@ import NetflowModel.Props.Ctl
 import NetflowModel.Props.ExportGen
 import NetflowModel.Props.C04c
 import NetflowModel.Props.C14b
+import NetflowModel.Props.C06c
+import NetflowModel.Props.C15b
